@@ -21,6 +21,7 @@ START, END = "autocopy_start.txt", "autocopy_end.txt"
 # names: sorting before / after the markers, nested, and legal-but-unusual ones (consecutive dots, a leading dot with a space)
 FILES = {"a.txt": b"alpha\n", "z.bin": bytes(range(200)), "sub/inner.txt": b"inner file\n", "big.bin": bytes([7]) * 70000,
          "take..2.wav": b"two dots\n", "sub/.hidden name.txt": b"dot file\n"}
+LINKED = {"dup.bin": b"shared sample\n", "bank/b0.bin": b"bank zero\n"}
 ZIP_SPLIT = {"batch_0.zip": ["a.txt", "sub/inner.txt", "take..2.wav"], "batch_1.zip": ["z.bin", "big.bin", "sub/.hidden name.txt"]}
 ZIP_SPLIT3 = {"batch_0.zip": ["a.txt", "sub/.hidden name.txt"], "batch_1.zip": ["sub/inner.txt", "z.bin"], "batch_2.zip": ["big.bin", "take..2.wav"]}
 
@@ -41,6 +42,10 @@ def write_tree(root, t):
             os.makedirs(os.path.dirname(p), exist_ok=True)
             with open(p, "wb") as f:
                 f.write(v[1])
+        elif v[0] == "l":
+            p = os.path.join(root, k)
+            os.makedirs(os.path.dirname(p), exist_ok=True)
+            os.symlink(v[1], p)
 
 
 def make_zip(path, names):
@@ -51,12 +56,23 @@ def make_zip(path, names):
 
 def build_source(groot, fmt, rel):
     src = os.path.join(groot, rel) if rel else groot
-    if fmt == "raw":
+    if fmt in ("raw", "rawlinks"):
         for n, b in FILES.items():
             p = os.path.join(src, n)
             os.makedirs(os.path.dirname(p), exist_ok=True)
             with open(p, "wb") as f:
                 f.write(b)
+        if fmt == "rawlinks":
+            # a dataset folder that links some samples / a sub-folder from a shared store OUTSIDE the folder (relative links),
+            # plus one link inside the folder: the local copy must hold the bytes, not links that leave it
+            store = os.path.join(groot, "_shared_store") if rel else os.path.join(os.path.dirname(groot), "_shared_store")
+            os.makedirs(os.path.join(store, "bank"))
+            for n, b in LINKED.items():
+                with open(os.path.join(store, n), "wb") as f:
+                    f.write(b)
+            os.symlink(os.path.relpath(os.path.join(store, "dup.bin"), src), os.path.join(src, "linked.bin"))
+            os.symlink(os.path.relpath(os.path.join(store, "bank"), src), os.path.join(src, "linkdir"))
+            os.symlink("a.txt", os.path.join(src, "inner_link.txt"))
     elif fmt == "zip":
         os.makedirs(os.path.dirname(src), exist_ok=True)
         make_zip(src + ".zip", list(FILES))
@@ -74,6 +90,8 @@ def expected_data(fmt, fn):
     """{relative name: bytes} of the data files a complete copy holds (markers excluded)."""
     if fmt in ("zips", "zips3") and fn == "image_folder":
         return {os.path.join(z[:-4], n): FILES[n] for z, names in (ZIP_SPLIT3 if fmt == "zips3" else ZIP_SPLIT).items() for n in names}
+    if fmt == "rawlinks":
+        return dict(FILES, **{"linked.bin": LINKED["dup.bin"], "linkdir/b0.bin": LINKED["bank/b0.bin"], "inner_link.txt": FILES["a.txt"]})
     return dict(FILES)
 
 
@@ -169,6 +187,12 @@ class Scenario:
             return {}, False, False, False
         pre = self.dst_rel + os.sep
         data = {k[len(pre):]: v[1] for k, v in t.items() if k.startswith(pre) and v[0] == "f"}
+        for k, v in t.items():
+            if k.startswith(pre) and v[0] == "l":
+                # a link in the local copy counts as the bytes it shows only if it resolves INSIDE the copy
+                tgt = os.path.normpath(os.path.join(os.path.dirname(k), v[1]))
+                if not os.path.isabs(v[1]) and tgt.startswith(pre) and tgt in t and t[tgt][0] == "f":
+                    data[k[len(pre):]] = t[tgt][1]
         s, e = data.pop(START, None) is not None, data.pop(END, None) is not None
         return data, s, e, (self.dst_rel in t or self.dst_rel == ".")
 
@@ -289,7 +313,7 @@ def final_checks(sc, state_tree, history, p):
             bad("result_untruthful", f"was_copied={res['was_copied']} but the call performed {len(ops1)} file-system mutations")
         if res["was_copied"]:
             if sc.fn == "folder" and sc.fmt != "zipsU" and \
-                    res.get("source_format") != {"raw": "raw", "zip": "zip", "zips": "zips", "zips3": "zips"}[sc.fmt]:
+                    res.get("source_format") != {"raw": "raw", "rawlinks": "raw", "zip": "zip", "zips": "zips", "zips3": "zips"}[sc.fmt]:
                 bad("result_untruthful", f"source_format={res.get('source_format')} for a {sc.fmt} source")
             if sc.fn == "image_folder" and sc.fmt != "zipsU" and (bool(res.get("was_zip")), bool(res.get("was_zip_classwise"))) != \
                     (sc.fmt == "zip", sc.fmt in ("zips", "zips3")):
@@ -408,12 +432,16 @@ def scenarios(tier, seed):
         out = sel
         out.append(("zips3", None, "parent", "folder", 2, False))
         out += [("zipsU", None, "parent", fn, 0, False) for fn in ("folder", "image_folder")]
+        out += [("rawlinks", None, "parent", "folder", 0, False), ("rawlinks", "nest/ds", "absent", "folder", 0, True),
+                ("rawlinks", None, "parent", "image_folder", 0, False)]
         out += [("raw+path", "nest/ds", "parent", "folder", 0, False), ("zips+path", None, "absent", "image_folder", 1, True),
                 ("zip+path", "nest/ds", "absent", "folder", 0, False), ("zip+path", None, "parent", "image_folder", 0, True)]
         for fn in ("folder", "image_folder"):
             out += [("zip+faults", None, "parent", fn, 0, False), ("zips+faults", None, "absent", fn, 0, False),
                     ("zips3+faults", "nest/ds", "parent", fn, 1, True), ("zips3+faults", None, "parent", fn, 2, False)]
     else:
+        out += [("rawlinks", rel, initial, fn, 0, rev) for fn in ("folder", "image_folder")
+                for rel, initial, rev in ((None, "parent", False), ("nest/ds", "absent", True), (None, "complete", False))]
         out += [(fmt + "+path", rel, initial, fn, 0, rev) for fn in ("folder", "image_folder") for fmt in ("raw", "zip", "zips")
                 for rel, initial, rev in ((None, "parent", False), ("nest/ds", "absent", True))]
         out += [("zipsU", rel, initial, fn, w, rev) for fn in ("folder", "image_folder") for rel, initial, w, rev in
